@@ -144,7 +144,7 @@ func failureForm(op uint16, resp []byte) bool {
 func TestC01(t *testing.T) {
 	r := NewReporter(t)
 	defer r.Done()
-	r.Rule("path strings = optional leading '/' x all sequences of <= N segments from {'', '.', '..', sub, <root>-other, <root>, out, ***DVD***, ***PS3***, PS3ISO, g.iso, secret.txt, CLOSEFILE} + specials (NUL, 65534-byte path, 300-deep ../, backslashes, '..' decorated with control/space/invalid bytes, paths padded with './', 'x/../', '//' to 255..65535 bytes) x 8 path-carrying opcodes x writing on/off x root spelling x preceding request; oracles: (O1) every leaf filesystem operation stays under the root, (O2) sentinel tree outside the root unchanged, (O3) byte-identical responses against a twin world whose outside is empty, (O4) response = model answer for the clamped path or the failure form; distinct by (path, mode, spelling, preceding request)")
+	r.Rule("path strings = optional leading '/' x all sequences of <= N segments from {'', '.', '..', sub, <root>-other, <root>, out, ***DVD***, ***PS3***, PS3ISO, g.iso, secret.txt, CLOSEFILE} + specials (NUL, 65534-byte path, 300-deep ../, backslashes, '..' decorated with control/space/invalid bytes, paths padded with './', 'x/../', '//' to 255..65535 bytes) x 8 path-carrying opcodes x writing on/off x root spelling x preceding request; short escaping paths also delivered in pieces (1, 7, 17 bytes, cut in the middle and one byte before the end); oracles: (O1) every leaf filesystem operation stays under the root, (O2) sentinel tree outside the root unchanged, (O3) byte-identical responses against a twin world whose outside is empty, (O4) response = model answer for the clamped path or the failure form; distinct by (path, mode, spelling, preceding request)")
 	A := buildC01World(t, true)
 	B := buildC01World(t, false)
 	defer A.w.Cleanup()
@@ -253,6 +253,76 @@ func TestC01(t *testing.T) {
 					}
 					if pi%997 == 0 && !allow && pvi == 0 {
 						r.Sample(map[string]any{"path": pshow, "steps": resA.Steps})
+					}
+				}
+			}
+		}
+	}
+	// ---- requests that arrive in pieces: the command, then the path cut at every kind of place (one byte of it, all
+	// but one byte, in the middle of a '..'), and byte by byte; the clamp must not depend on how the stream is cut ----
+	{
+		var esc []string
+		for _, p := range paths {
+			if len(p) <= 48 && (strings.Contains(p, "..") || strings.Contains(p, "%2e")) {
+				esc = append(esc, p)
+			}
+		}
+		step := 5
+		if r.Thorough() {
+			step = 1
+		}
+		for pi := 0; pi < len(esc); pi += step {
+			p := esc[pi]
+			if !r.Mine(pi / step) {
+				continue
+			}
+			if r.TimeUp() {
+				break
+			}
+			for _, ck := range []int{1, 17, 16 + len(p)/2, 16 + len(p) - 1, 7} {
+				if ck < 1 {
+					continue
+				}
+				for _, allow := range []bool{false, true} {
+					var reqs []Req
+					for _, op := range ops {
+						reqs = append(reqs, mkReq(op, p))
+					}
+					leaf := newVFs(afero.NewOsFs(), "leaf")
+					mA := newModel(A.w.Root, allow)
+					resA := runSession(t, SrvOpts{Root: A.w.Root, AllowWrite: allow, LeafWrap: func(afero.Fs) afero.Fs { return leaf }}, mA, reqs, Delivery{Chunk: ck})
+					r.Transition(int64(len(resA.Steps)))
+					r.Eval(1)
+					key := sprintf("%q|%v|chunk%d", p, allow, ck)
+					r.State(key)
+					r.Nontrivial(key)
+					rep := map[string]any{"path": p, "allow_write": allow, "delivery_chunk": ck, "steps": resA.Steps}
+					for _, e := range leaf.Events() {
+						ep := e.Path
+						if i := strings.Index(ep, " -> "); i >= 0 {
+							ep = ep[:i]
+						}
+						if ep != A.w.Root && !strings.HasPrefix(ep, A.w.Root+"/") {
+							r.Outcome("O1-leaf-op-outside-root")
+							r.Violation("C01:split-request:leaf-op-outside-root:"+e.Op, sprintf("path %q delivered in pieces of %d bytes (allow-write=%v): filesystem operation %s(%q) outside the root", p, ck, allow, e.Op, e.Path), rep)
+							break
+						}
+					}
+					if resA.Why != "" {
+						st := resA.FailStep
+						if !(st >= 0 && st < len(resA.Raw) && failureForm(reqs[st].Op, resA.Raw[st]) && !resA.Closed[st]) {
+							r.Outcome("O4-model-mismatch")
+							r.Violation("C01:split-request:"+resA.WhySig, sprintf("path %q delivered in pieces of %d bytes (allow-write=%v): %s", p, ck, allow, resA.Why), rep)
+						}
+					}
+					if allow {
+						if d := diffSnap(outsideSnap, snapshotTree(A.w.Dir, A.w.Root)); d != "[]" {
+							r.Violation("C01:split-request:outside-changed", sprintf("path %q delivered in pieces of %d bytes changed objects outside the root: %s", p, ck, d), rep)
+							A.w.Cleanup()
+							A = buildC01World(t, true)
+							outsideSnap = snapshotTree(A.w.Dir, A.w.Root)
+						}
+						A.resetIfChanged()
 					}
 				}
 			}
